@@ -177,7 +177,8 @@ def gen_script(rng, conns, comps, n_events, p_interrupt=0.25, p_bad=0.05, p_exc=
         yield ("start", r)
         drv.pending, drv.in_tick = {}, False
         for _ in range(n_events):
-            r += rng.choice([0, 0, 2, 10, 1000]) if real_cost else 0
+            # mostly nanoseconds; now and then an answer (or the next interrupt) takes seconds of real time
+            r += (7_000_000_000 if rng.random() < 0.03 else rng.choice([0, 0, 2, 10, 1000])) if real_cost else 0
             x = rng.random()
             pend = sorted(drv.pending)
             if x < p_interrupt:
